@@ -98,6 +98,8 @@ def main():
             for pa, ra in (
                 (periodic or None, reflective or None),
                 (np.array(periodic, dtype=int) if periodic else None, np.array(reflective, dtype=int) if reflective else None),
+                # the index arguments are SETS of coordinates: repeating an index changes nothing
+                ((periodic + periodic[:1]) or None, (tuple(reflective) + tuple(reflective[-1:])) or None),
             ):
                 before = arr.copy()
                 try:
